@@ -763,6 +763,59 @@ theorem symmOp_between (s : Symm) (hs : s = .mean ∨ s = .max ∨ s = .min) (a 
     (ha : lo ≤ a ∧ a ≤ hi) (hb : lo ≤ b ∧ b ≤ hi) :
     lo ≤ symmOp s a b ∧ symmOp s a b ≤ hi := by
   rcases hs with h | h | h <;> subst h <;> simp only [symmOp] <;> grind
+/-- every entry of the directed ECA matrix is NaN or a rate in `[0,1]` -/
+theorem ecaMatrix_range (w : Window) (ts : List Rat) (E : Mat Bool) (n : Nat) (tm lag : Rat)
+    (M : Mat (Option Rat)) (h : ecaMatrix w ts E n tm lag = some M)
+    (i j : Nat) (hi : i < n) (hj : j < n) (r : Rat) (hr : M.get none i j = some r) :
+    0 ≤ r ∧ r ≤ 1 := by
+  rcases Nat.lt_trichotomy i j with hij | hij | hij
+  · obtain ⟨a, b, hab, h1, _⟩ := ecaMatrix_entry w ts E n tm lag M h i j hij hj
+    rw [h1] at hr
+    cases a with
+    | nan => cases hr
+    | val v =>
+      simp only [rateVal, Option.some.injEq] at hr
+      subst hr
+      exact ecaRate_range w _ _ tm lag _ _ hab v (Or.inl rfl)
+  · subst hij
+    rw [(matrix_diagonal w ts E n none tm lag M h i hi).1] at hr
+    simp only [Option.some.injEq] at hr
+    subst hr
+    exact ⟨by decide, by decide⟩
+  · obtain ⟨a, b, hab, _, h2⟩ := ecaMatrix_entry w ts E n tm lag M h j i hij hi
+    rw [h2] at hr
+    cases b with
+    | nan => cases hr
+    | val v =>
+      simp only [rateVal, Option.some.injEq] at hr
+      subst hr
+      exact ecaRate_range w _ _ tm lag _ _ hab v (Or.inr rfl)
+
+/-- **range of the analysis matrix**: under each symmetrisation offered for ECA
+(`directed`, `mean`, `max`, `min`) every entry of `event_series_analysis(method='ECA')`
+is NaN or lies in `[0,1]` -/
+theorem ecaAnalysis_range (w : Window) (ts : List Rat) (E : Mat Bool) (n : Nat) (tm lag : Rat)
+    (s : Symm) (hs : s = .directed ∨ s = .mean ∨ s = .max ∨ s = .min)
+    (A : Mat (Option Rat)) (h : ecaAnalysis w ts E n tm lag s = some A)
+    (i j : Nat) (hi : i < n) (hj : j < n) (r : Rat) (hr : A.get none i j = some r) :
+    0 ≤ r ∧ r ≤ 1 := by
+  obtain ⟨M, hM, hA⟩ := ecaAnalysis_entry w ts E n tm lag s A h i j hi hj
+  rw [hA] at hr
+  rcases hs with rfl | hs
+  · exact ecaMatrix_range w ts E n tm lag M hM i j hi hj r hr
+  · cases ha : M.get none i j with
+    | none => rw [ha] at hr; rcases hs with rfl | rfl | rfl <;> cases hr
+    | some a =>
+      cases hb : M.get none j i with
+      | none => rw [ha, hb] at hr; rcases hs with rfl | rfl | rfl <;> cases hr
+      | some b =>
+        rw [ha, hb, (symmOpN_spec s a b).1] at hr
+        simp only [Option.some.injEq] at hr
+        subst hr
+        exact symmOp_between s hs a b 0 1
+          (ecaMatrix_range w ts E n tm lag M hM i j hi hj a ha)
+          (ecaMatrix_range w ts E n tm lag M hM j i hj hi b hb)
+
 theorem symmOp_max_min_select (a b : Rat) :
     (symmOp .max a b = a ∨ symmOp .max a b = b) ∧ (symmOp .min a b = a ∨ symmOp .min a b = b) := by
   simp only [symmOp]; grind
